@@ -366,7 +366,7 @@ def crash_image(pre, evs, dev, upto=None, model="kill", keep=None, torn=None):
 # ----------------------------------------------------------------------------- running one process
 class Result:
     __slots__ = ("argv", "status", "signal", "out", "err", "events", "timeout", "san", "crashed",
-                 "budget_hit", "sim_us", "san_text")
+                 "budget_hit", "sim_us", "san_text", "problem_records")
 
     def ok(self):
         return self.status == 0 and not self.san
